@@ -431,7 +431,14 @@ func (w *c21World) runOp(op Op, root ygot.GoStruct) string {
 		case "validate-leafref":
 			out = normErr(w.T.(ygot.ValidatedGoStruct).Validate(&ytypes.LeafrefOptions{IgnoreMissingData: true}))
 		case "emitjson":
-			s, err := ygot.EmitJSON(w.T, &ygot.EmitJSONConfig{Format: ygot.Internal, SkipValidation: idx%2 == 0})
+			ecfg := &ygot.EmitJSONConfig{Format: ygot.Internal, SkipValidation: idx%2 == 0}
+			switch idx % 7 {
+			case 3:
+				ecfg = nil // the defaults
+			case 5:
+				ecfg.EscapeHTML = true
+			}
+			s, err := ygot.EmitJSON(w.T, ecfg)
 			out = short(canonJSON([]byte(s))) + " " + normErr(err)
 		case "emitjson-rfc":
 			cfg := &ygot.RFC7951JSONConfig{AppendModuleName: idx%2 == 0}
